@@ -124,3 +124,13 @@ m("C01-kitty-lines-missing-last-fill", "C01", "image/kitty.py", "               
 m("C03-whole-r-one", "C03", "image/kitty.py", "        vars(control_data).update(v=height, r=r_height)", "        vars(control_data).update(v=height, r=1)")
 m("C03-bpl-no-format", "C03", "image/kitty.py", "            bytes_per_line = width * cell_height * (format // 8)", "            bytes_per_line = width * cell_height * 4")
 m("C03-c-is-pixel-width", "C03", "image/kitty.py", "control_data = ControlData(f=format, s=width, c=r_width, z=z_index)", "control_data = ControlData(f=format, s=width, c=width, z=z_index)")
+# ---- iterm2 _render_image
+m("C03-iterm2-no-truncate", "C03", "image/iterm2.py", "                    compressed_image.truncate()\n", "")
+m("C03-iterm2-no-seek0", "C03", "image/iterm2.py", "                for line in range(1, r_height + 1):\n                    compressed_image.seek(0)\n", "                for line in range(1, r_height + 1):\n")
+m("C01-iterm2-trailing-nl", "C01", "image/iterm2.py", '                    line < r_height and buffer.write("\\n")', '                    line <= r_height and buffer.write("\\n")')
+m("C01-iterm2-cursor-up-too-far", "C01", "image/iterm2.py", 'cursor_up = CURSOR_UP % (r_height - 1) if r_height > 1 else ""', 'cursor_up = CURSOR_UP % r_height if r_height > 1 else ""')
+m("C01-iterm2-konsole-no-forward", "C01", "image/iterm2.py", "                    is_on_konsole and buffer.write(cursor_right)\n", "")
+m("C03-iterm2-konsole-flag-inverted", "C03", "image/iterm2.py", "                    f\"{';doNotMoveCursor=1' * is_on_konsole}:\"\n                )\n            )\n            compressed_image.seek(0)\n            return \"\".join(\n                (\n                    (\n                        \"\"\n                        if is_on_konsole\n                        else f\"{erase}{cursor_right}\\n\" * (r_height - 1)\n                    ),\n                    erase,\n                    \"\" if is_on_konsole else cursor_up,\n                    ITERM2_START,\n                    control_data,\n                    standard_b64encode(compressed_image.read()).decode(),\n                    ST,\n                    f\"{cursor_right}\\n\" * (r_height - 1) if is_on_konsole else \"\",\n                    cursor_right * is_on_konsole,\n                )\n            )\n\n\n_stdout_write", "                    f\"{';doNotMoveCursor=1' * (not is_on_konsole)}:\"\n                )\n            )\n            compressed_image.seek(0)\n            return \"\".join(\n                (\n                    (\n                        \"\"\n                        if is_on_konsole\n                        else f\"{erase}{cursor_right}\\n\" * (r_height - 1)\n                    ),\n                    erase,\n                    \"\" if is_on_konsole else cursor_up,\n                    ITERM2_START,\n                    control_data,\n                    standard_b64encode(compressed_image.read()).decode(),\n                    ST,\n                    f\"{cursor_right}\\n\" * (r_height - 1) if is_on_konsole else \"\",\n                    cursor_right * is_on_konsole,\n                )\n            )\n\n\n_stdout_write")
+m("C11-iterm2-lines-stream-leak", "C11", "image/iterm2.py", "            with io.StringIO() as buffer, raw_image, compressed_image:", "            with io.StringIO() as buffer, raw_image:")
+m("C03-iterm2-size-before-seek-end", "C03", "image/iterm2.py", "        with compressed_image:\n            compressed_image.seek(0, 2)\n            control_data", "        with compressed_image:\n            compressed_image.seek(0)\n            control_data")
+m("C01-iterm2-whole-height-minus-1", "C01", "image/iterm2.py", "                    f\";height={r_height};preserveAspectRatio=0;inline=1\"\n                    f\"{';doNotMoveCursor=1' * is_on_konsole}:\"\n                )\n            )\n            compressed_image.seek(0)\n            return \"\".join(\n                (\n                    (\n                        \"\"\n                        if is_on_konsole\n                        else f\"{erase}{cursor_right}\\n\" * (r_height - 1)\n                    ),\n                    erase,\n                    \"\" if is_on_konsole else cursor_up,\n                    ITERM2_START,\n                    control_data,\n                    standard_b64encode(compressed_image.read()).decode(),\n                    ST,\n                    f\"{cursor_right}\\n\" * (r_height - 1) if is_on_konsole else \"\",\n                    cursor_right * is_on_konsole,\n                )\n            )\n\n\n_stdout", "                    f\";height={r_height - 1};preserveAspectRatio=0;inline=1\"\n                    f\"{';doNotMoveCursor=1' * is_on_konsole}:\"\n                )\n            )\n            compressed_image.seek(0)\n            return \"\".join(\n                (\n                    (\n                        \"\"\n                        if is_on_konsole\n                        else f\"{erase}{cursor_right}\\n\" * (r_height - 1)\n                    ),\n                    erase,\n                    \"\" if is_on_konsole else cursor_up,\n                    ITERM2_START,\n                    control_data,\n                    standard_b64encode(compressed_image.read()).decode(),\n                    ST,\n                    f\"{cursor_right}\\n\" * (r_height - 1) if is_on_konsole else \"\",\n                    cursor_right * is_on_konsole,\n                )\n            )\n\n\n_stdout")
